@@ -176,6 +176,21 @@ def verify_rule(ctx, r):
         else:
             r.bad("candidate|false", "after a rejected candidate the scan position is not advanced to the end of the line", fn=f,
                   loc=ism[0].loc)
+    # A Confirmed answer is a match of the regex somewhere in the buffer. With the two-byte CRLF terminator the regex can
+    # match the empty string *between* CR and LF (\\B, or -w around a pattern that can be empty), which is not inside any
+    # line's content: under CRLF a Confirmed line has to be verified on the stripped line as well.
+    crlf = cond_switches(f, lambda e: is_call(e, "grep_matcher::LineTerminator::is_crlf"), eb)
+    conf_region = C.reach(f, [arms["Confirmed"]], stop_blocks=hdrs)
+    direct = [b for b in some_rets if b in conf_region and
+              b in C.reach(f, [arms["Confirmed"]], stop_blocks=hdrs | {ism[0].bb})]
+    if not direct:
+        r.ok("confirmed|crlf", "every Confirmed line is verified with is_match", fn=f)
+    elif crlf and not guarded(f, direct, crlf, False):
+        r.ok("confirmed|crlf", "a Confirmed line is returned unverified only when the terminator is not CRLF", fn=f)
+    else:
+        r.bad("confirmed|crlf", "find_by_line_fast returns a Confirmed line without verifying it even under a CRLF terminator: an "
+              "empty match between CR and LF (e.g. \\B, -w 'x*') reports the line although its content does not match",
+              fn=f, construct="Confirmed")
     s = seed_after_call(f, ism[0], V("Ok", I(1)), stop_blocks=hdrs)
     vals = {x for v in s.ret_values.values() for x in value_set(v)}
     if vals and all(v is not None and v[1] == "Ok" and v[2] is not None and v[2][1] == "Some" for v in vals):
@@ -623,7 +638,7 @@ def run(ctx):
                   kind="FLOW/TABLE") as r:
         strip_rule(ctx, r)
         strip_helper_rule(ctx, r)
-    with ctx.rule("C01.VERIFY", "candidate lines are re-verified; a rejected candidate resumes after its line", floor=3, kind="GUARD/A3") as r:
+    with ctx.rule("C01.VERIFY", "candidate lines (and, under CRLF, confirmed ones) are re-verified; a rejected candidate resumes after its line", floor=4, kind="GUARD/A3") as r:
         verify_rule(ctx, r)
     with ctx.rule("C01.FASTGATE", "fast-path admission guards and fast→slow dispatch", floor=7, kind="GUARD/A3") as r:
         fastgate_rule(ctx, r)
